@@ -1,0 +1,46 @@
+//! Verification hooks (compiled only with `--cfg rrss_verif`): a thread-local sink that receives
+//! the interpreter's abstract state at every statement boundary. Nothing is installed by default.
+
+use std::cell::RefCell;
+
+use crate::{exec::val::Val, frontend::ast::VariableName};
+
+#[derive(Clone, Debug)]
+pub enum EntrySnapshot {
+    Var(Val),
+    Func { arity: usize },
+}
+
+/// One completed statement: its line, the control-flow state it left behind, every scope
+/// (outermost first; keys as stored, i.e. case-folded) and the pronoun referent.
+#[derive(Clone, Debug)]
+pub struct StmtEvent {
+    pub line: u32,
+    pub control_flow: &'static str,
+    pub scopes: Vec<Vec<(VariableName, EntrySnapshot)>>,
+    pub last_access: Option<VariableName>,
+}
+
+thread_local! {
+    static SINK: RefCell<Option<Box<dyn FnMut(StmtEvent)>>> = RefCell::new(None);
+}
+
+/// Runs `f` with `sink` installed on this thread; the sink is removed afterwards.
+pub fn with_sink<R>(sink: Box<dyn FnMut(StmtEvent)>, f: impl FnOnce() -> R) -> R {
+    SINK.with(|s| *s.borrow_mut() = Some(sink));
+    let result = f();
+    SINK.with(|s| *s.borrow_mut() = None);
+    result
+}
+
+pub fn is_active() -> bool {
+    SINK.with(|s| s.borrow().is_some())
+}
+
+pub fn emit(event: StmtEvent) {
+    SINK.with(|s| {
+        if let Some(sink) = s.borrow_mut().as_mut() {
+            sink(event)
+        }
+    })
+}
